@@ -5,7 +5,8 @@ Spec: specs/lang/LangStatic.tla (Resolve: the definition of lexical resolution) 
 MCGenScope: two names, one function, nested blocks, same-block re-make, shadowing, forward calls,
 captured reads and writes, literals with two placeholders), of the `deaddef` profile (definitions after a
 `return`, still visible throughout their block) and of the `fn` profile (two one-parameter functions, recursion with
-several live activations) and runs each on the reference machine.  Binding (R): each program runs
+several live activations), and of the `namecases` family (GenNameCases.tla: a same-named function and variable of another
+block live on the call chain while a recursive / mutually recursive / flat function runs) and runs each on the reference machine.  Binding (R): each program runs
 through the real pipeline with event hooks on; the complete event trace - every assignment
 identified by the DECLARATION SITE it lands in, every call by the definition it reaches, and the
 environment projection (all live variables, by site) after every statement - must equal the
@@ -26,8 +27,9 @@ def run(tier):
     common.build_harness()
     v = common.Verdict("C04", tier, "model_checking")
     tally = le.Tally()
-    for module, env in profiles(tier):
-        r = le.generate(module, env=env, timeout=1500)
+    for module, env in profiles(tier) + [("GenNameCases", {"EVENTS": 2})]:
+        r = le.generate(module, env=env, timeout=1500, cfg="lang/GenNameCases.cfg" if module == "GenNameCases" else "lang/MCGen.cfg",
+                        coverage=module != "GenNameCases")
         tally.add_tlc(module, r)
         judged = le.replay(r.records, modes=["nn", "fn", "fp"], ev=3, compare_events=True)
         tally.add(judged)
